@@ -215,3 +215,28 @@ Proof. vm_compute. reflexivity. Qed.
 Lemma cert_example_moments : forall k, (k <= 1)%nat ->
   Rabs (moment (big_rule 0 0 (BigZ.zero :: nil) (BigZ.two :: nil)) k - leg_moment k) <= IZR 0 / IZR 1.
 Proof. apply cert_check_big_sound; [discriminate | discriminate | reflexivity | exact cert_example]. Qed.
+
+(* ------------------------------------------------------------------ the gauss-quad adapter (hand model in Model/Quadrature.v) *)
+(* 1-D: whatever table the crate holds, if its [gl_points degree]-point rule carries a certificate, the adapter integrates
+   every complex polynomial of degree <= d within the certificate bound *)
+Theorem gl_adapter_exact : forall (table : Z -> rule Rops) (degree : Z) (d : nat) (eps : R),
+  (forall k, (k <= d)%nat -> Rabs (moment (table (gl_points degree)) k - leg_moment k) <= eps) ->
+  forall (a b : R) (cs : list C), (length cs <= S d)%nat ->
+  Cmod (Cminus (integrate_GaussLegendre Rops table (cpeval Rops cs) a b degree) (cpint Rops cs a b))
+    <= eps * Rabs (tr_u a b) * scale_cmod cs (tr_M a b).
+Proof. intros table degree d eps H a b cs Hl. unfold integrate_GaussLegendre. apply (rule_certificate_transfer _ d eps H a b cs Hl). Qed.
+
+Theorem gl_adapter_linear : forall (table : Z -> rule Rops) (degree : Z) (alpha beta : C) (f g : R -> C) (a b : R),
+  integrate_GaussLegendre Rops table (fun x => Cplus (Cmult alpha (f x)) (Cmult beta (g x))) a b degree =
+  Cplus (Cmult alpha (integrate_GaussLegendre Rops table f a b degree)) (Cmult beta (integrate_GaussLegendre Rops table g a b degree)).
+Proof. intros. unfold integrate_GaussLegendre. apply rule_linear. Qed.
+
+(* 2-D: the nested adapter on a separable integrand is the product of the two 1-D adapters *)
+Theorem gl_adapter_2d_separable : forall (table : Z -> rule Rops) (degree : Z) (p q : R -> C) (a b c d : R),
+  integrate2d_GaussLegendre Rops table (fun x y => Cmult (p x) (q y)) a b c d degree =
+  Cmult (integrate_GaussLegendre Rops table p a b degree) (integrate_GaussLegendre Rops table q c d degree).
+Proof. intros. unfold integrate2d_GaussLegendre, integrate_GaussLegendre. cbv zeta. apply tensor_separable. Qed.
+
+(* degree 0 and 1 are served by the 2-point rule *)
+Lemma gl_points_small : forall degree, (degree <= 2)%Z -> gl_points degree = 2%Z.
+Proof. intros degree H. unfold gl_points. lia. Qed.
